@@ -67,9 +67,20 @@ def read(g) -> Tab:
     return Tab(k, lo, up, known.tobytes() + lo.tobytes() + up.tobytes())
 
 
-def apply_op(g, v, op) -> None:
-    """Execute one public operation. op = ("reveal", s) | ("unreveal", s) | ("reset", kmask) | ("compute",)."""
+def apply_op(g, v, op, v2=None) -> None:
+    """Execute one public operation. op = ("reveal", s) | ("unreveal", s) | ("reset", kmask) | ("compute",) |
+    ("set", s) | ("unset", s) | ("reveal_alt", s) | ("set_alt", s)  (the *_alt forms use the alternative value v2[s])."""
     kind = op[0]
+    if kind == "reveal_alt":
+        g.reveal_value(v2[op[1]], coal(op[1]))
+        return
+    if kind == "set_alt":
+        g.set_value(v2[op[1]], coal(op[1]))
+        return
+    if kind == "reset_alt":      # ("reset_alt", kmask, altmask): bulk reset with a mix of true and alternative values
+        ids = kmask_ids(op[1])
+        g.set_known_values([(v2 if op[2] >> s & 1 else v)[s] for s in ids], [coal(s) for s in ids])
+        return
     if kind == "compute":
         g.compute_bounds()
     elif kind == "reveal":
@@ -87,11 +98,11 @@ def apply_op(g, v, op) -> None:
         raise HarnessError(f"unknown op {op}")
 
 
-def run_history(n: int, comp: str, v, history) -> Any:
+def run_history(n: int, comp: str, v, history, v2=None) -> Any:
     """Fresh real object, public operations only (used for replays and for trace validation)."""
     g = new_game(n, comp)
     for op in history:
-        apply_op(g, v, tuple(op))
+        apply_op(g, v, tuple(op), v2)
     return g
 
 
@@ -120,6 +131,8 @@ class LatticeRun:
         self.base = kmask(base_ids if base_ids is not None else minimal_ids(n))
         self.ex = tuple(explor if explor is not None else explorable_ids(n))
         self.T: dict[int, Tab] = {}
+        self.T2: dict[tuple, Tab] = {}
+        self.v2 = None           # optional alternative values: histories may re-reveal a coalition with a DIFFERENT value
         self.fresh_obj: dict[int, Any] = {}
         self.dead = False        # stop after the first violations of this unit (keeps broken trees fast)
 
@@ -127,6 +140,8 @@ class LatticeRun:
     def doc(self, history, **kw) -> dict:
         d = {"engine": "lattice", "n": self.n, "computer": self.comp, "values": list(self.v), "tag": self.tag,
              "history": [list(op) for op in history]}
+        if self.v2 is not None:
+            d["values_alt"] = list(self.v2)
         d.update(kw)
         return d
 
@@ -137,7 +152,10 @@ class LatticeRun:
 
     def _call(self, what: str, history, fn, *a) -> bool:
         try:
-            fn(*a)
+            if fn is apply_op and self.v2 is not None:
+                fn(*a, self.v2)
+            else:
+                fn(*a)
             return True
         except HarnessError:
             raise
@@ -338,40 +356,44 @@ class LatticeRun:
     def dirty(self, d: int, Ks=None, resets: bool = True, extra_ops: bool = False) -> None:
         """From every clean state: every sequence of 1..d non-compute operations, then compute.
 
-        The resulting table must be the canonical table of the knowledge reached (checked through checker.clean
-        and compared with T[K]); states are de-duplicated on the table digest."""
+        A state is the whole real object: it is snapshotted with copy.deepcopy (every instance attribute, so memoised
+        results or dirty flags the object keeps outside its table travel along), NOT with the public copy(), which
+        builds a new object and would silently drop such state. G6: for every root and depth the first sequence is also
+        executed from scratch on one fresh object with public operations only and must give the same table.
+        The table after the closing compute must be the canonical table of the knowledge reached (checker.clean +
+        comparison with T[K]); sequences are de-duplicated on the digest of the dirty table they produce."""
         if self.dead:
             return
+        import copy as _copy
         full = self.base | kmask(self.ex)
         for K in (Ks if Ks is not None else list(self.all_K())):
             if self.dead:
                 return
-            root = self.fresh_obj.get(K)
-            if root is None:
-                root = new_game(self.n, self.comp)
-                h0 = [("reset", K), ("compute",)]
-                ok = self._call("reset", h0, apply_op, root, self.v, h0[0]) and \
-                    self._call("compute", h0, apply_op, root, self.v, h0[1])
-                if not ok:
-                    return
+            h0 = [("reset", K), ("compute",)]
+            root = new_game(self.n, self.comp)
+            ok = self._call("reset", h0[:1], apply_op, root, self.v, h0[0]) and \
+                self._call("compute", h0, apply_op, root, self.v, h0[1])
+            if not ok:
+                return
             t0 = read(root)
-            # idempotence of compute on a clean state
-            g2 = root.copy()
-            h = [("reset", K), ("compute",), ("compute",)]
+            # idempotence of compute on a clean state (same object)
+            g2 = _copy.deepcopy(root)
+            h = h0 + [("compute",)]
             if not self._call("compute_bounds", h, apply_op, g2, self.v, ("compute",)):
                 return
             self.stats.transitions += 1
             if read(g2).key != t0.key:
                 self._viol("compute_bounds is not idempotent", h, K=kmask_ids(K))
-            frontier = [(root, K, [("reset", K), ("compute",)])]
+            frontier = [(root, (K, 0), list(h0))]
             seen = {t0.key}
             for depth in range(1, d + 1):
                 nxt = []
-                for obj, k, hist in frontier:
+                validated = False
+                for obj, (k, alt), hist in frontier:
                     for op in self._enabled(k, full, resets, extra_ops):
                         if self.dead:
                             return
-                        g = obj.copy()
+                        g = _copy.deepcopy(obj)
                         h1 = hist + [op]
                         if not self._call(op[0], h1, apply_op, g, self.v, op):
                             return
@@ -381,34 +403,69 @@ class LatticeRun:
                             continue
                         seen.add(td.key)
                         self.stats.states += 1
+                        k_expected = self._model_k(k, op)
+                        alt1 = self._model_alt(alt, op)
                         if depth < d:
-                            nxt.append((g, td.k, h1))
+                            nxt.append((g, (k_expected, alt1), h1))
+                            gc = _copy.deepcopy(g)
+                        else:
+                            gc = g
                         # close the dirty run
-                        gc = g.copy()
                         h2 = h1 + [("compute",)]
                         if not self._call("compute_bounds", h2, apply_op, gc, self.v, ("compute",)):
                             return
                         tc = read(gc)
                         self.stats.transitions += 1
                         self.stats.outcomes.add(hash(tc.key))
-                        k_expected = self._model_k(k, op)
+                        if not validated:          # G6: the same history on one fresh object, public operations only
+                            validated = True
+                            try:
+                                tf = read(run_history(self.n, self.comp, self.v, h2, self.v2))
+                            except Exception as e:  # noqa: BLE001
+                                self._viol(f"history raised {type(e).__name__}: {e} on a fresh object", h2)
+                                return
+                            self.stats.traces += 1
+                            if tf.key != tc.key:
+                                raise HarnessError(f"snapshot/restore diverges from a from-scratch replay of {h2}")
                         if tc.k != k_expected or td.k != k_expected:
                             self._viol(f"knowledge after {op} is {kmask_ids(tc.k)}, expected {kmask_ids(k_expected)}", h2)
                             continue
                         self.checker.live = gc
-                        msg = self.checker.clean(tc.k, tc, "dirty")
+                        msg = self.checker.clean(tc.k, tc, "dirty") if not alt1 else None
                         self.stats.evals += 1
                         if msg:
                             self._viol(msg, h2, K=kmask_ids(tc.k))
-                        c = self.canonical(tc.k)
+                        c = self.canonical(tc.k) if not alt1 else self.canonical_alt(tc.k, alt1)
                         if c is not None and c.key != tc.key:
                             self._viol(f"path dependence: table at K={kmask_ids(tc.k)} after a dirty run differs from a fresh object's"
                                        f" (got lower={tc.lo.tolist()} upper={tc.up.tolist()}; fresh lower={c.lo.tolist()} upper={c.up.tolist()})",
                                        h2, K=kmask_ids(tc.k), expect_canonical=True)
                 frontier = nxt
 
+    def canonical_alt(self, K: int, alt: int) -> Tab | None:
+        """Table of a fresh object whose known values are v on K, except v2 on the coalitions in `alt`."""
+        t = self.T2.get((K, alt))
+        if t is None:
+            g = new_game(self.n, self.comp)
+            try:
+                apply_op(g, self.v, ("reset_alt", K, alt), self.v2)
+                apply_op(g, self.v, ("compute",))
+            except Exception:  # noqa: BLE001
+                return None
+            t = self.T2[(K, alt)] = read(g)
+        return t
+
+    def _model_alt(self, alt: int, op) -> int:
+        if op[0] in ("reveal_alt", "set_alt"):
+            return alt | 1 << op[1]
+        if op[0] in ("reveal", "set", "unreveal", "unset"):
+            return alt & ~(1 << op[1])
+        if op[0] == "reset":
+            return 0
+        return alt
+
     def _model_k(self, k: int, op) -> int:
-        if op[0] in ("reveal", "set"):
+        if op[0] in ("reveal", "set", "reveal_alt", "set_alt"):
             return k | 1 << op[1]
         if op[0] in ("unreveal", "unset"):
             return k & ~(1 << op[1])
@@ -438,6 +495,9 @@ class LatticeRun:
         if extra_ops:
             for s in self.ex:
                 ops.append(("set", s) if not k >> s & 1 else ("unset", s))
+        if self.v2 is not None:
+            for s in self.ex:
+                ops.append(("reveal_alt", s) if not k >> s & 1 else ("set_alt", s))
         return ops
 
 
@@ -446,8 +506,9 @@ def replay_lattice(doc: dict, make_checker: Callable[[dict], Checker]) -> tuple[
     n, comp, v = doc["n"], doc["computer"], doc["values"]
     hist = [tuple(op) for op in doc["history"]]
     lines = [f"replay: n={n} computer={comp} values={v}", f"history ({len(hist)} ops): {hist[:12]}{' ...' if len(hist) > 12 else ''}"]
+    v2 = doc.get("values_alt")
     try:
-        g = run_history(n, comp, v, hist)
+        g = run_history(n, comp, v, hist, v2)
     except Exception as e:  # noqa: BLE001
         return True, "\n".join(lines + [f"operation raised {type(e).__name__}: {e}"])
     tab = read(g)
@@ -457,7 +518,15 @@ def replay_lattice(doc: dict, make_checker: Callable[[dict], Checker]) -> tuple[
     if msg:
         return True, "\n".join(lines + [f"checker: {msg}"])
     if doc.get("expect_canonical"):
-        c = read(run_history(n, comp, v, [("reset", tab.k), ("compute",)]))
+        alt = 0
+        for op in hist:
+            if op[0] in ("reveal_alt", "set_alt"):
+                alt |= 1 << op[1]
+            elif op[0] in ("reveal", "set", "unreveal", "unset"):
+                alt &= ~(1 << op[1])
+            elif op[0] == "reset":
+                alt = 0
+        c = read(run_history(n, comp, v, [("reset_alt", tab.k, alt), ("compute",)], v2))
         if c.key != tab.key:
             return True, "\n".join(lines + [f"fresh object at same knowledge: lower={c.lo.tolist()} upper={c.up.tolist()} -> differs"])
     if "S" in doc and len(hist) >= 4:
